@@ -198,7 +198,7 @@ def crude_guess_class(th, hy, aux):
     if not at:
         return False
     a = at[-1]
-    Tn = float(th.Tnucl)
+    Tn = float(hy.Tnucl)
     g = a["guess"]
     crude = g is not None and abs(g[0] - Tn) <= 1e-9 * Tn and abs(g[1] - 0.99 * Tn) <= 1e-9 * Tn
     return crude and (a["raised"] or not a["success"])
@@ -212,7 +212,7 @@ def Q(x):
 def model_case(th, hy, res, events):
     """Coq boolean: the model, fed with the recorded oracle values, returns the outcome the
     code returned.  None if the trace does not have the shape the model assumes (reported)."""
-    Tn = th.Tnucl
+    Tn = hy.Tnucl
     ev = list(events)
     if not ev or ev[0][0] != "match" or not ev[0][2]:
         return None, "first call is not matchDeflagOrHyb(vmax)"
@@ -557,24 +557,50 @@ def spec_id(spec):
     return ",".join("%s=%s" % (k, spec[k]) for k in sorted(spec) if k != "kind")
 
 
-def check_lte(ctx, spec, rtol=1e-6, atol=1e-10, gated=True):
+def build_with_history(spec, rtol, atol, later_Tn):
+    """The solver for `spec`, followed by what a temperature scan re-using one model object
+    does: the model's nucleation temperature is changed and a second solver is built.  The
+    FIRST solver is returned; the property is about its own nucleation temperature."""
+    import WallGo
+    th, hy = S.make_hydro(spec, rtol, atol)
+    th.Tnucl = later_Tn
+    try:
+        WallGo.Hydrodynamics(th, 10.0, 0.01, rtol, atol)
+    except Exception:
+        pass
+    return th, hy
+
+
+def check_lte(ctx, spec, rtol=1e-6, atol=1e-10, gated=True, later_Tn=None):
     """returns a list of failures (what, replay, key); reported by the caller.  Keys of
     sentinel / exception failures name the input: a registered finding for one equation of
-    state must not hide the same symptom on another one."""
+    state must not hide the same symptom on another one.  With `later_Tn` the solver is
+    evaluated after the model object went on to another nucleation temperature."""
     fails = []
     sid = "%s:%s" % (spec["kind"], spec_id(spec))
     if (rtol, atol) != (1e-6, 1e-10):
         sid += ":rtol=%g,atol=%g" % (rtol, atol)
+    if later_Tn is not None:
+        sid += ":history(model.Tnucl->%g)" % later_Tn
     try:
-        th, hy = S.make_hydro(spec, rtol, atol)
+        if later_Tn is None:
+            th, hy = S.make_hydro(spec, rtol, atol)
+        else:
+            th, hy = build_with_history(spec, rtol, atol, later_Tn)
     except Exception as ex:
         ctx.count("eos_skipped", spec)
         return fails, None
     if not S.window_lo(hy) < hy.vJ - 2e-2:
         ctx.count("eos_no_window", spec)
         return fails, None
-    Tn = th.Tnucl
+    Tn = hy.Tnucl              # the solver's own nucleation temperature
     case = dict(spec=spec, rtol=rtol, atol=atol)
+    if later_Tn is not None:
+        case["later_Tn"] = later_Tn
+        if Tn != spec["Tn"]:
+            fails.append(("Hydrodynamics.Tnucl = %r after the model object moved on to Tn=%r "
+                          "(built at %r); %s" % (Tn, later_Tn, spec["Tn"], spec),
+                          dict(kind="history", **case), "history-Tnucl"))
     try:
         res, events, aux = record_findvwLTE(hy)
     except LteRaised as lr:
@@ -681,6 +707,82 @@ def check_lte(ctx, spec, rtol=1e-6, atol=1e-10, gated=True):
     return fails, (term, why, res, case)
 
 
+# WallGoManager on a one-field quartic model: wallSpeedLTE after a re-setup
+
+def _quartic_manager():
+    import logging
+    import WallGo
+    from WallGo import EffectivePotential, Fields, GenericModel
+    P = dict(D=0.2, E=0.05, lam=0.1, T0=80.0, g=100.0)
+
+    class QPot(EffectivePotential):
+        fieldCount = 1
+        effectivePotentialError = 1e-15
+
+        def evaluate(self, fields, temperature):
+            phi = Fields(fields).getField(0)
+            T = np.asarray(temperature)
+            return (P["D"] * (T ** 2 - P["T0"] ** 2) * phi ** 2 - P["E"] * T * phi ** 3
+                    + P["lam"] / 4 * phi ** 4 - P["g"] * math.pi ** 2 / 90 * T ** 4)
+
+    class QModel(GenericModel):
+        def __init__(self):
+            self.modelParameters = dict(P)
+            self.potential = QPot()
+
+        @property
+        def fieldCount(self):
+            return 1
+
+        def getEffectivePotential(self):
+            return self.potential
+    m = WallGo.WallGoManager()
+    m.setVerbosity(logging.ERROR)
+    m.registerModel(QModel())
+
+    def setup(Tn):
+        disc = 9 * P["E"] ** 2 * Tn ** 2 - 8 * P["lam"] * P["D"] * (Tn ** 2 - P["T0"] ** 2)
+        phi = (3 * P["E"] * Tn + math.sqrt(disc)) / (2 * P["lam"])
+        m.setupThermodynamicsHydrodynamics(
+            WallGo.PhaseInfo(temperature=Tn, phaseLocation1=Fields([0.0]),
+                             phaseLocation2=Fields([phi])),
+            WallGo.VeffDerivativeSettings(temperatureVariationScale=2.0,
+                                          fieldValueVariationScale=[50.0]))
+    return m, setup
+
+
+def manager_history(ctx):
+    """setup(Tn1) -> wallSpeedLTE() -> setup(Tn2) -> wallSpeedLTE(): the second answer is the
+    one of a fresh manager at Tn2 and conserves the entropy flux at Tn2"""
+    for Tn1, Tn2 in ((83.0, 81.5), (82.0, 83.5))[:ctx.n(1, 2)]:
+        m, setup = _quartic_manager()
+        setup(Tn1)
+        v1 = float(m.wallSpeedLTE())
+        setup(Tn2)
+        v2 = float(m.wallSpeedLTE())
+        f, fsetup = _quartic_manager()
+        fsetup(Tn2)
+        want = float(f.wallSpeedLTE())
+        case = dict(model="quartic1 D=0.2 E=0.05 lam=0.1 T0=80 g=100", Tn1=Tn1, Tn2=Tn2)
+        ctx.count("history_manager_resetup", case)
+        hy = m.hydrodynamics
+        bad = None
+        if hy.Tnucl != Tn2:
+            bad = "manager.hydrodynamics.Tnucl = %r after setup at %r" % (hy.Tnucl, Tn2)
+        elif abs(v2 - want) > 1e-9 * max(abs(want), 1e-30):
+            bad = ("wallSpeedLTE() after re-setup at Tn=%g is %.10g (first setup Tn=%g gave "
+                   "%.10g) but a fresh manager at Tn=%g gives %.10g" % (Tn2, v2, Tn1, v1, Tn2,
+                                                                       want))
+        elif 0 < v2 < 1:
+            E = mismatch(hy, v2)
+            if E is None or abs(E) > TOL_ENT_SHOOT:
+                bad = ("after re-setup at Tn=%g: findMatching(wallSpeedLTE()=%.8f) has "
+                       "T+g+/(T-g-)-1 = %r" % (Tn2, v2, E))
+        if bad:
+            ctx.fail_input(bad + "; " + json.dumps(case), dict(kind="manager_history", **case),
+                           key="manager-history")
+
+
 def direct(ctx, proved):
     WORST.clear()
     sp = specs(ctx)
@@ -718,6 +820,34 @@ def direct(ctx, proved):
                 meta.append((res, case))
             if n < 4:
                 ctx.sample(dict(eos=spec, vwLTE=res))
+    # histories: the solver is used after its model object moved on to another nucleation
+    # temperature (a temperature scan re-using one model; tests/test_Hydrodynamics.py does it)
+    pool = [x for x in sp if x["kind"] in ("bag", "twostep")]
+    for spec in pool[2::ctx.n(9, 4)]:
+        later = round(spec["Tn"] + (0.1 if spec["Tn"] < 0.8 else -0.15), 3)
+        try:
+            fails, mc = check_lte(ctx, spec, later_Tn=later)
+        except Exception as ex:
+            ctx.fail_input("harness/implementation raised %r for %s (history)" % (ex, spec),
+                           dict(kind="raise", spec=spec, later_Tn=later,
+                                tb=traceback.format_exc()[-600:]),
+                           key="raises:%s:history" % spec["kind"])
+            continue
+        ctx.count("history_model_Tnucl_changed", dict(spec=spec, later=later),
+                  bucket=spec["kind"])
+        for what, rep, key in fails:
+            if key != CLASS_KEY and "history" not in key:
+                key += ":history"
+            ctx.fail_input("[solver built at Tn=%g; model.Tnucl then set to %g and a second "
+                           "solver built] %s" % (spec["Tn"], later, what), rep, key=key)
+        if mc is not None and mc[0] is not None:
+            terms.append(mc[0])
+            meta.append((mc[2], mc[3]))
+    try:
+        manager_history(ctx)
+    except Exception as ex:
+        ctx.log("manager history raised", traceback.format_exc())
+        ctx.broken.append("harness: manager history raised %r" % ex)
     # the repo's own tests run with atol = 1e-6: diagnostics, gated only when listed
     cand = []
     diag = [s for s in sp if s["kind"] == "bag"]
@@ -797,7 +927,7 @@ def _run(ctx):
             files=["src/WallGo/hydrodynamics.py", "src/WallGo/hydrodynamicsTemplateModel.py",
                    "src/WallGo/helpers.py"], sha=[vlib.sha(s) for s in srcs],
             spans=info["spans"], preconditions=info["preconditions"], facts=info["facts"]))
-        ftext, facts = gen_hydro_shock.generate_lte_facts(srcs[0])
+        ftext, facts = gen_hydro_shock.generate_lte_facts(srcs[0], srcs[1])
         facts["manager"] = gen_hydro_shock.manager_lte_fact(vlib.read_src("manager.py"))
         ctx.write("LteFacts.v", ftext, sources=dict(file="src/WallGo/hydrodynamics.py",
                                                     facts=facts))
@@ -857,7 +987,10 @@ def replay(rep):
 
         def n(self, a, b):
             return a
-    fails, mc = check_lte(Dummy(), spec, rep.get("rtol", 1e-6), rep.get("atol", 1e-10))
+    if rep.get("kind") == "manager_history":
+        return 0
+    fails, mc = check_lte(Dummy(), spec, rep.get("rtol", 1e-6), rep.get("atol", 1e-10),
+                          later_Tn=rep.get("later_Tn"))
     if mc:
         print("findvwLTE() =", mc[2])
     for f in fails:
